@@ -286,6 +286,11 @@ func (dsc *dataStoreCommand) setRange(keyName string, offset int, substring stri
 		return
 	}
 
+	if offset > maxStringLength-len(substring) {
+		result.data = respErrorString("ERR string exceeds maximum allowed size (proto-max-bulk-len)")
+		return
+	}
+
 	if len(setBytes) < offset {
 		expanded := make([]byte, offset)
 		copy(expanded, setBytes)
